@@ -302,7 +302,7 @@ func c18Exec(run *ev.Run, c ev.Case) {
 				command(se.ST, &ipmi.GetChannelAuthenticationCapabilitiesCmd{}, nil, authcaps, 8)
 			case "sl-stray-ok":
 				// replies to other commands (late duplicates) arrive first; they are not responses to this call
-				command(se.ST, &ipmi.GetSystemGUIDCmd{}, [][]string{{"stray:othercmd"}, {"stray:othercmd", "stray:othercmd"}, {"busy", "stray:othercmd"}, {"garbage:reflect"}}[r.Intn(4)], make([]byte, 16), 16)
+				command(se.ST, &ipmi.GetSystemGUIDCmd{}, [][]string{{"stray:othercmd"}, {"stray:othercmd", "stray:othercmd"}, {"busy", "stray:othercmd"}, {"garbage:reflect"}, {"busy", "garbage:nomsg"}, {"tmo", "garbage:nomsg", "garbage:nomsg"}, {"garbage:nomsg", "busy"}}[r.Intn(7)], make([]byte, 16), 16)
 			case "cmd-stray-ok":
 				command(sess, &ipmi.GetDeviceIDCmd{}, [][]string{{"stray:othercmd"}, {"stray:othercmd", "busy"}, {"unauth"}, {"othersid"}, {"garbage:reflect"}}[r.Intn(5)], devid, 11)
 			case "sl-busy-ok":
